@@ -17,6 +17,11 @@
 // in the output, time limit hit.
 //
 //	c04 -seed N -tier quick|thorough -out DIR -thriftgo PATH [-jobs J]
+//	    [-bases N] [-per-base N] [-max-coq-bytes N] [-norun]
+//
+// quick: 10 base programs x 25 edits (a seeded sample spread over the rules, and inside
+// a rule over sites and files); thorough: 40 base programs x 100 edits, capped at 25 MB
+// of Coq text (-per-base 0 takes every enumerated edit that fits the cap).
 package main
 
 import (
@@ -39,11 +44,16 @@ import (
 	"verif/harness/rng"
 )
 
+// baseRef names a base program: idlgen.Generate(rng.New(Seed), Options{Valid, MaxFiles, Size}).
 type baseRef struct {
-	Gen   string `json:"gen"`
-	Seed  uint64 `json:"seed"`
-	Index int    `json:"index"`
+	Gen      string `json:"gen"`
+	Seed     uint64 `json:"seed"`
+	Index    int    `json:"index"`
+	MaxFiles int    `json:"max_files,omitempty"`
+	Size     int    `json:"size,omitempty"`
 }
+
+var seedOf = map[*idlgen.Program]uint64{}
 
 // caseRec is one case; the exported fields are the jsonl line.
 type caseRec struct {
@@ -89,10 +99,16 @@ var (
 	binary   string
 	chdirMu  sync.Mutex
 	treeSeq  int
+
+	parseNanos int64
+	noRun      bool
 )
 
 func fatal(err error) {
 	fmt.Fprintln(os.Stderr, "c04:", err)
+	if scratch != "" {
+		os.RemoveAll(scratch)
+	}
 	os.Exit(2)
 }
 
@@ -114,6 +130,8 @@ func writeTree(root string, tree map[string]string) error {
 func inTree(root string, f func() error) (err error) {
 	chdirMu.Lock()
 	defer chdirMu.Unlock()
+	t := time.Now()
+	defer func() { parseNanos += int64(time.Since(t)) }()
 	if err := os.Chdir(root); err != nil {
 		return err
 	}
@@ -234,6 +252,12 @@ func (pr *producer) launch(c *caseRec, root string, tree map[string]string, cfgs
 			jobs = append(jobs, job{args: args, cfg: cfg, out: out})
 		}
 	}
+	if noRun {
+		c.Runs = []*RunRes{}
+		c.Cmd = append([]string{"thriftgo"}, jobs[0].args...)
+		os.RemoveAll(root)
+		return
+	}
 	c.Runs = make([]*RunRes, len(jobs))
 	var wg sync.WaitGroup
 	wg.Add(len(jobs))
@@ -285,6 +309,10 @@ func main() {
 	bin := flag.String("thriftgo", "", "path of the thriftgo binary under test")
 	jobs := flag.Int("jobs", 4, "processes run at a time")
 	maxBytes := flag.Int("max-coq-bytes", 0, "cap on the total size of the Coq shards (0 = tier default)")
+	optBases := flag.Int("bases", 0, "number of base programs (0 = tier default)")
+	optPerBase := flag.Int("per-base", -1, "edits per base program, 0 = all that fit the cap (-1 = tier default)")
+	flag.DurationVar(&timeLimit, "time-limit", timeLimit, "time limit of one run of the binary")
+	flag.BoolVar(&noRun, "norun", false, "debugging: do not run the binary (cases carry no runs; only the edits are checked against Idl/Rules.v)")
 	flag.Parse()
 	if *out == "" || *bin == "" {
 		fatal(fmt.Errorf("-out and -thriftgo are required"))
@@ -316,10 +344,16 @@ func main() {
 
 	nBases, perBase, budget := 10, 25, 3_000_000
 	if *tier == "thorough" {
-		nBases, perBase, budget = 40, 0, 25_000_000
+		nBases, perBase, budget = 40, 100, 25_000_000
 	}
 	if *maxBytes > 0 {
 		budget = *maxBytes
+	}
+	if *optBases > 0 {
+		nBases = *optBases
+	}
+	if *optPerBase >= 0 {
+		perBase = *optPerBase
 	}
 
 	r := rng.New(*seed)
@@ -356,18 +390,32 @@ func main() {
 	}
 	for bi := 0; bi < nBases; bi++ {
 		gr := r.Fork()
-		bseed := gr.U64()
-		maxFiles := 1 + bi%4
-		if bi%4 == 3 || *tier == "thorough" && bi%8 == 5 {
-			maxFiles = 4
+		// the number of files wanted: mostly several (the property is about WHERE in the
+		// include graph the defect sits); the generator draws 1..MaxFiles, so redraw a few times
+		want := []int{2, 1, 3, 2, 4, 3, 2, 4, 1, 3}[bi%10]
+		size := 2 + bi%2
+		var p *idlgen.Program
+		var bseed uint64
+		for try := 0; try < 16; try++ {
+			bseed = gr.U64()
+			q := generate(bseed, want, size)
+			if q == nil {
+				pr.st.GeneratorGaveUp++
+				break
+			}
+			if p == nil || len(q.AST()) > len(p.AST()) {
+				p = q
+			}
+			if len(p.AST()) >= want {
+				break
+			}
 		}
-		p := generate(bseed, maxFiles, 2+bi%2)
 		if p == nil {
-			pr.st.GeneratorGaveUp++
 			continue
 		}
+		bseed = seedOf[p]
 		mb := idlmut.NewBase(p.AST(), nil)
-		b := &baseInfo{ref: baseRef{Gen: "idlgen", Seed: bseed, Index: bi}, mb: mb, texts: mb.Texts, main: p.Main()}
+		b := &baseInfo{ref: baseRef{Gen: "idlgen", Seed: bseed, Index: bi, MaxFiles: want, Size: size}, mb: mb, texts: mb.Texts, main: p.Main()}
 		root := newRoot()
 		if err := writeTree(root, b.texts); err != nil {
 			fatal(err)
@@ -442,7 +490,8 @@ func main() {
 	if err := pr.writeMeta(*out); err != nil {
 		fatal(err)
 	}
-	fmt.Printf("c04: %d cases, %d runs, %d shards, %.1f s\n", len(pr.cases), pr.st.Evaluations, len(pr.st.shards), pr.st.WallSeconds)
+	fmt.Printf("c04: %d cases, %d runs, %d shards, %.1f s (binary %.1f s summed over runs, file walks %.1f s, in-process parsing %.1f s)\n", len(pr.cases), pr.st.Evaluations,
+		len(pr.st.shards), pr.st.WallSeconds, float64(procNanos)/1e9, float64(walkNanos)/1e9, float64(parseNanos)/1e9)
 }
 
 // generate calls the shared generator under a watchdog (it has been seen to spin).
@@ -458,6 +507,9 @@ func generate(seed uint64, maxFiles, size int) *idlgen.Program {
 	}()
 	select {
 	case p := <-ch:
+		if p != nil {
+			seedOf[p] = seed
+		}
 		return p
 	case <-time.After(10 * time.Second):
 		return nil
